@@ -25,6 +25,16 @@ ENUMS = [  # (type code in the case protocol, name, header)
     (12, 'Directive_t', 'potassco/basic_types.h'), (13, 'Theory_t', 'potassco/theory_data.h'),
     (14, 'Tuple_t', 'potassco/theory_data.h'), (15, 'Clause_t', 'potassco/clingo.h'),
     (16, 'Statistics_t', 'potassco/clingo.h')]
+# Enumerations the HARNESS declares with the public macros (shapes no library enumeration has: smallest constant above min,
+# holes, negative / positive minVal that is no constant, constants not in increasing order with an alias, a single constant).
+# Read from the harness source, so model, harness and oracle talk about the same declarations (op 6 compares with enumClass()).
+HARNESS_SRC = os.path.join(os.path.dirname(os.path.dirname(os.path.dirname(os.path.abspath(__file__)))), 'harness', 'h_c16.cpp')
+ENUMS += [(17, 'Level_t', HARNESS_SRC), (18, 'Sparse_t', HARNESS_SRC), (19, 'Neg_t', HARNESS_SRC), (20, 'Off_t', HARNESS_SRC),
+          (21, 'Unord_t', HARNESS_SRC), (22, 'One_t', HARNESS_SRC)]
+# EnumClass::isValid: the conjuncts of its accepting condition, white space removed (any order, either spelling of a comparison)
+VALID_MIN = ('v>=min', 'min<=v', 'v>=this->min', 'this->min<=v')
+VALID_MAX = ('v<=max', 'max>=v', 'v<=this->max', 'this->max>=v')
+VALID_TAB = ('detail::find_kv(*this,0,&v,0,0)', 'find_kv(*this,0,&v,0,0)')
 C_ESC = {'t': 9, 'n': 10, 'v': 11, 'r': 13, 'f': 12, 'a': 7, 'b': 8, '0': 0, '\\': 92, "'": 39}
 
 
@@ -78,6 +88,26 @@ def stringify(args):
     """What the preprocessor's # operator yields for a macro argument list: leading/trailing white space
     dropped, every white-space run between tokens replaced by one space (no string literals occur)."""
     return re.sub(r'\s+', ' ', args).strip()
+
+
+def split_top(expr, op):
+    """Split expr at the top-level (not inside parentheses) occurrences of the two-character operator op."""
+    parts, depth, cur, i = [], 0, '', 0
+    while i < len(expr):
+        c = expr[i]
+        if c in '([':
+            depth += 1
+        elif c in ')]':
+            depth -= 1
+        if depth == 0 and expr.startswith(op, i):
+            parts.append(cur)
+            cur = ''
+            i += len(op)
+            continue
+        cur += c
+        i += 1
+    parts.append(cur)
+    return parts
 
 
 def coq_str(s):
@@ -265,6 +295,37 @@ def generate(repo):
         if ("*n == '%s'" % ch) not in hdr:
             problems.append('anchor not found: %s in %s' % (nm, where))
 
+    # ---- EnumClass::isValid: "within [min, max] and IN THE TABLE" - the model's ec_valid (and every enum theorem) rests on it ----
+    iv = body_after(cpp, r'bool\s+EnumClass\s*::\s*isValid\s*\(\s*int\s+v\s*\)\s*const\s*\{')
+    if iv is None:
+        problems.append('anchor not found: EnumClass::isValid')
+    else:
+        m = re.match(r'^\s*return\b(.*?);\s*$', iv, re.S)
+        if not m:
+            problems.append('anchor not found: EnumClass::isValid is not a single return statement')
+        else:
+            conj = [re.sub(r'\s+', '', c) for c in split_top(m.group(1), '&&')]
+            seen = [('min' if c in VALID_MIN else 'max' if c in VALID_MAX else 'table' if c in VALID_TAB else None) for c in conj]
+            if None in seen or sorted(seen) != ['max', 'min', 'table']:
+                problems.append('anchor not found: EnumClass::isValid is no longer "v >= min && v <= max && find_kv(*this, 0, &v, 0, 0)" '
+                                '(found conjuncts %r): membership in the key table is what ec_valid models' % (conj,))
+    # ---- the public macros: min is the fixed 0 / the caller's minVal, max the last enumerator, rep the stringified arguments ----
+    try:
+        plat = strip_c_comments(rd(repo, 'potassco/platform.h'))
+        flat = re.sub(r'\\\n', ' ', plat)
+        flat = re.sub(r'\s+', '', flat)
+        for what, needle in (('enum E of POTASSCO_ENUM_CONSTANTS_T', 'enumE{__VA_ARGS__,__eEnd,eMin=minVal,eMax=__eEnd-1};'),
+                             ('enumClass() of POTASSCO_ENUM_CONSTANTS_T', 'Potassco::EnumClassr={#TypeName,#__VA_ARGS__,eMin,eMax};'),
+                             ('POTASSCO_ENUM_CONSTANTS', '#definePOTASSCO_ENUM_CONSTANTS(TypeName,...)POTASSCO_ENUM_CONSTANTS_T(TypeName,unsigned,0u,__VA_ARGS__)')):
+            if needle not in flat:
+                problems.append('anchor not found: ' + what + ' in potassco/platform.h')
+    except OSError as e:
+        problems.append(str(e))
+    # find_kv numbers an enumerator without "= value" from e.min on (the first) / previous + 1
+    fk = body_after(cpp, r'bool\s+find_kv\s*\(\s*const\s+EnumClass\s*&\s*e\b')
+    if fk is None or not re.search(r'for\s*\(\s*int\s+cVal\s*=\s*e\.min\s*;\s*;\s*\+\+cVal\s*\)', fk):
+        problems.append('anchor not found: find_kv counts from e.min')
+
     # ---- enums: the stringified argument lists ----
     ents = []
     for code, name, rel in ENUMS:
@@ -305,7 +366,7 @@ def generate(repo):
             problems.append('cannot evaluate enumerators of ' + name)
             continue
         ents.append((code, name, rep, minv, last))
-        sdef('rep_' + name, rep, rel)
+        sdef('rep_' + name, rep, os.path.relpath(rel, os.path.dirname(os.path.dirname(HARNESS_SRC))) if os.path.isabs(rel) else rel)
         zdef('emin_' + name, minv)
         zdef('emax_' + name, last, '__eEnd - 1')
     add('(* type code, stringified arguments, eMin, eMax *)')
